@@ -156,8 +156,15 @@ func newSnowCtx(chainID ids.ID, dir string, log logging.Logger) (*avasnow.Contex
 // its own pebble databases under ChainDataDir). A panic raised by Initialize on
 // the calling goroutine is returned as an error.
 func startNode(ctx context.Context, dir string, genesisBytes []byte, onAccepted func(*chain.ExecutedBlock) error) (n *node, err error) {
-	return startNodeWith(ctx, dir, genesisBytes, nil, nil, onAccepted)
+	return startNodeWith(ctx, dir, genesisBytes, []byte(`{`+nodeVMConfig+`}`), nil, onAccepted)
 }
+
+// nodeVMConfig is node-local tuning (not consensus relevant) used by every
+// node of the harness: merkledb's rebuild after an unclean shutdown allocates
+// valueNodeCacheSize/50 batch-op slots up front, which is 2.4 GB with
+// hypersdk's default of 2 GiB; dozens of restarting nodes side by side then
+// spend their time (and the machine's memory) zeroing that slice.
+const nodeVMConfig = `"vm":{"valueNodeCacheSize":67108864,"intermediateNodeCacheSize":67108864}`
 
 func startNodeWith(ctx context.Context, dir string, genesisBytes, configBytes []byte, log logging.Logger, onAccepted func(*chain.ExecutedBlock) error) (n *node, err error) {
 	factory, err := newFactory(onAccepted)
@@ -335,7 +342,7 @@ func produceChain(ctx context.Context, dir string) (*refChain, error) {
 	// builder returns the mempool stream asynchronously, so the producer waits
 	// for that (log line) before it builds again.
 	plog := &producerLog{restored: make(chan struct{}, 64)}
-	n, err := startNodeWith(ctx, dir, genesisBytes, []byte(`{"chain":{"targetBuildDuration":30000000000}}`), plog, func(b *chain.ExecutedBlock) error {
+	n, err := startNodeWith(ctx, dir, genesisBytes, []byte(`{"chain":{"targetBuildDuration":30000000000},`+nodeVMConfig+`}`), plog, func(b *chain.ExecutedBlock) error {
 		delivered[b.Block.Hght] = fmt.Sprintf("%x", b.ExecutionResults.Marshal())
 		return nil
 	})
